@@ -60,10 +60,10 @@ theorem nextOpen_noErr (c : Nat) (opn : List Nat) (it : Item) :
 theorem handle_ignores_error_value (sd : Bool) (s : St) (i c : Nat) (v : ErrVal) (it : Item) :
     handleItem sd s i c (setErr v it) = handleItem sd s i c it := by
   cases it with
-  | x rc rq rs org => cases rq <;> cases rs <;> simp [setErr, handleItem, handleX, pre, rqErr, rqSkip, rsErr]
-  | connectMitm t rq rs => cases rq <;> cases rs <;> simp [setErr, handleItem, handleMitm, pre, rqErr, rqSkip, rsErr]
-  | connectBlind d rq rs => cases rq <;> cases rs <;> simp [setErr, handleItem, handleBlind, pre, rqErr, rqSkip, rsErr]
-  | connectMitmFail rq rs => cases rq <;> cases rs <;> simp [setErr, handleItem, handleMitmFail, pre, rqErr, rqSkip, rsErr]
+  | x rc rq rs org => cases rq <;> cases rs <;> simp [setErr, handleItem, handleX, pre, rqErr, rqSkip, rsErr, afterReq]
+  | connectMitm t rq rs => cases rq <;> cases rs <;> simp [setErr, handleItem, handleMitm, pre, rqErr, rqSkip, rsErr, afterReq]
+  | connectBlind d rq rs => cases rq <;> cases rs <;> simp [setErr, handleItem, handleBlind, pre, rqErr, rqSkip, rsErr, afterReq]
+  | connectMitmFail rq rs => cases rq <;> cases rs <;> simp [setErr, handleItem, handleMitmFail, pre, rqErr, rqSkip, rsErr, afterReq]
 
 /-- **Whatever value a modifier's error is, the connection behaves the same**: replacing every
 modifier error of a script by any one value `v` - `io.EOF`, a timeout, … - leaves the whole trace
@@ -85,14 +85,14 @@ theorem handle_error_only_adds_warning (sd : Bool) (s : St) (i c : Nat) (it : It
   cases it with
   | x rc rq rs org =>
     cases rq <;> cases rs <;> cases org <;>
-      simp [noErr, handleItem, handleX, pre, rqErr, rqSkip, rsErr, stripWarn, List.filter_cons]
+      simp [noErr, handleItem, handleX, pre, rqErr, rqSkip, rsErr, afterReq, stripWarn, List.filter_cons]
   | connectMitm t rq rs =>
-    cases rq <;> cases rs <;> simp [noErr, handleItem, handleMitm, pre, rqErr, rqSkip, rsErr, stripWarn, List.filter_cons]
+    cases rq <;> cases rs <;> simp [noErr, handleItem, handleMitm, pre, rqErr, rqSkip, rsErr, afterReq, stripWarn, List.filter_cons]
   | connectBlind d rq rs =>
     cases rq <;> cases rs <;> cases d <;>
-      simp [noErr, handleItem, handleBlind, pre, rqErr, rqSkip, rsErr, stripWarn, List.filter_cons]
+      simp [noErr, handleItem, handleBlind, pre, rqErr, rqSkip, rsErr, afterReq, stripWarn, List.filter_cons]
   | connectMitmFail rq rs =>
-    cases rq <;> cases rs <;> simp [noErr, handleItem, handleMitmFail, pre, rqErr, rqSkip, rsErr, stripWarn, List.filter_cons]
+    cases rq <;> cases rs <;> simp [noErr, handleItem, handleMitmFail, pre, rqErr, rqSkip, rsErr, afterReq, stripWarn, List.filter_cons]
 
 /-- **A modifier error only adds the Warning; processing continues**: the trace of a connection whose
 modifiers return errors is, Warning events aside, the trace of the same connection with modifiers
